@@ -12,7 +12,7 @@ MIR = [('rapid_time', 'on'), ('model', 'on'), ('solution', 'on')]
 
 # ------------------------------------------------------------------ network shapes
 def mk_spec(tier, variant=0):
-    """variant 0: 1 type, 1 real depot; variant 1: 2 types, 2 real depots"""
+    """variant 0: 1 type, 1 real depot; 1: 2 types, 2 real depots; 2: 2 types, 1 depot, lean; 3: lean variant of 0; 4: 1 type, 2 real depots of capacity 1"""
     if variant == 0:
         sp = NB.Spec(nloc=2, types=[dict(cap=5, seats=7, limit='sym')], depots=[dict(allowed={0: 'sym'})], trips=[dict(vt=0, limit='sym') for _ in range(3)], maint=1,
                      level='listed', maxdist='sym', paxmax=12, capmax=2)
@@ -24,6 +24,10 @@ def mk_spec(tier, variant=0):
         # two types, one depot, one trip per type: type-compatibility scripts
         sp = NB.Spec(nloc=2, types=[dict(cap=5, seats=7, limit=None), dict(cap=11, seats=3, limit=None)], depots=[dict(allowed={0: 'none', 1: 'none'})],
                      trips=[dict(vt=0), dict(vt=1)], maint=1, level='listed', maxdist='sym', paxmax=12, capmax=2)
+    elif variant == 4:
+        # lean, one type, TWO real depots of capacity 1 whose locations are symbolic (they may share a location): depot identity vs location, full depots
+        sp = NB.Spec(nloc=2, types=[dict(cap=5, seats=7, limit=None)], depots=[dict(cap=1, allowed={0: 'none'}), dict(cap=1, allowed={0: 'none'})], trips=[dict(vt=0) for _ in range(2)], maint=1,
+                     level='listed', maxdist='sym', paxmax=12, capmax=2)
     else:
         sp = NB.Spec(nloc=2, types=[dict(cap=5, seats=7, limit='sym'), dict(cap=11, seats=3, limit=None)], depots=[dict(allowed={0: 'sym', 1: 'none'}), dict(allowed={0: 'none', 1: 'absent'})],
                      trips=[dict(vt=0, limit='sym'), dict(vt=0, limit=None), dict(vt=1, limit='sym')], maint=1, level='listed', maxdist='sym', paxmax=12, capmax=2)
@@ -492,7 +496,7 @@ def all_jobs(tier, seed, props):
     firsts = [0, 3, 6] if tier == 'quick' else list(range(n0))
     for i in firsts:
         for lo in range(0, 70, chunk): js.append(dict(name='scripts len 2, first op %d, second %d..%d' % (i, lo, lo + chunk - 1), func='job_script', kwargs=dict(tier=tier, variant=0, prefix=[i], props=props, lo=lo, hi=lo + chunk)))
-    deep = ([d for i, d in enumerate(DEEP) if i != 2] if tier == 'quick' else DEEP + DEEP2) + DEEP_TYPES
+    deep = ([d for i, d in enumerate(DEEP) if i != 2] if tier == 'quick' else DEEP + DEEP2) + DEEP_TYPES + DEEP_DEPOTS
     for k, sc in enumerate(deep): js.append(dict(name='deep script %d' % k, func='job_script', kwargs=dict(tier=tier, variant=sc[0], prefix=sc[1], props=props, explicit=True)))
     if tier == 'thorough':
         for i in (0, 3, 4):
@@ -524,6 +528,11 @@ DEEP_TYPES = [      # variant 2: depots 0..3, trip 4 of type 0, trip 5 of type 1
     (2, [('spawn', 0, [4]), ('spawn', 1, [5]), ('to_dummy', 'veh_0'), ('override_reassign', 4, 4, 'dummy_2', 'veh_1')]),
     (2, [('spawn', 0, [4]), ('spawn', 1, [5]), ('override_reassign', 4, 4, 'veh_0', 'veh_1')]),
     (2, [('spawn', 0, [4]), ('spawn', 1, [6]), ('fit_reassign', 6, 6, 'veh_1', 'veh_0'), ('reassign_end_depots_consistent_with_transitions',)]),
+]
+# variant 4: depots 0..5 (two real depots of capacity 1, overflow), trips 6,7, slot 8
+DEEP_DEPOTS = [
+    (4, [('spawn', 0, [6]), ('spawn', 0, [7]), ('reassign_end_depots_consistent_with_transitions',)]),
+    (4, [('spawn', 0, [2, 6, 3]), ('spawn', 0, [7]), ('improve_depots',)]),
 ]
 DEEP2 = [
     (1, [('spawn', 0, [6]), ('spawn', 1, [8]), ('spawn', 0, [7]), ('reassign_end_depots_consistent_with_transitions',)]),
